@@ -668,6 +668,11 @@ func (s *slot) attempt(res *probeResult, p probe, mode string, hold, gap time.Du
 	if err := s.prepare(p); err != nil {
 		return fail("%v", err)
 	}
+	if strings.HasSuffix(mode, "evalsha") {
+		if v, err := s.prep.Do("SCRIPT", "LOAD", holdScript); err != nil || v.IsErr() {
+			return fail("SCRIPT LOAD of the holder: %v %s", err, v)
+		}
+	}
 	before, err := s.snapshot(s.prep, true)
 	if err != nil {
 		return fail("snapshot before: %v", err)
@@ -676,7 +681,7 @@ func (s *slot) attempt(res *probeResult, p probe, mode string, hold, gap time.Du
 	if err != nil {
 		return fail("fingerprint before: %v", err)
 	}
-	if mode == "exclusive" {
+	if strings.HasPrefix(mode, "exclusive") {
 		v, err := s.prep.Do(p.Cmd...)
 		if err != nil {
 			return fail("reference run: %v", err)
@@ -706,7 +711,21 @@ func (s *slot) attempt(res *probeResult, p probe, mode string, hold, gap time.Du
 	if mode == "shared" {
 		aErr = s.holder.Send("SLEEP", holdSec)
 	} else {
-		aErr = s.holder.Send("EVAL", holdScript, "0", holdSec)
+		// the four ways to run the holder script; all of them must hold
+		// the exclusive lock (TIMEOUT n is a prefix that is stripped before
+		// the command is dispatched)
+		var hc []string
+		switch mode {
+		case "exclusive:timeout-eval":
+			hc = []string{"TIMEOUT", "30", "EVAL", holdScript, "0", holdSec}
+		case "exclusive:evalsha":
+			hc = []string{"EVALSHA", sha1hex(holdScript), "0", holdSec}
+		case "exclusive:timeout-evalsha":
+			hc = []string{"TIMEOUT", "30", "EVALSHA", sha1hex(holdScript), "0", holdSec}
+		default:
+			hc = []string{"EVAL", holdScript, "0", holdSec}
+		}
+		aErr = s.holder.Send(hc...)
 	}
 	if aErr != nil {
 		return fail("send A: %v", aErr)
@@ -865,14 +884,14 @@ func (r probeResult) judge() (key, what string) {
 				fmt.Sprintf("%s (%s lock): %s was answered while SLEEP held the shared lock and changed %v: A=[0,%.1f]ms hold=%.0fms, B=[%.1f,%.1f]ms, reply %.200s",
 					r.name(), lock, t38.CmdString(r.Probe.Cmd), r.DiffEnd, r.ASendRecv[1], r.HoldMs, r.BSendRecv[0], r.BSendRecv[1], r.Reply)
 		}
-	case "exclusive":
+	case "exclusive", "exclusive:timeout-eval", "exclusive:evalsha", "exclusive:timeout-evalsha":
 		// the script restores the state it started from, so the only replies
 		// of a deterministic read that the sequential model allows are the
 		// one of the initial state
 		if r.Probe.Det && r.Reply != r.RefReply {
 			return "read-inside-exclusive-section:" + cmdName,
-				fmt.Sprintf("%s (%s lock): %s answered %.300s while an EVAL script held the exclusive lock half-way through its writes; before and after the script the answer is %.300s",
-					r.name(), lock, t38.CmdString(r.Probe.Cmd), r.Reply, r.RefReply)
+				fmt.Sprintf("%s (%s lock): %s answered %.300s while a script (holder started as %s) was half-way through its writes and must hold the exclusive lock; before and after the script the answer is %.300s",
+					r.name(), lock, t38.CmdString(r.Probe.Cmd), r.Reply, strings.ToUpper(strings.TrimPrefix(strings.TrimPrefix(r.Mode, "exclusive"), ":")+" eval")[0:], r.RefReply)
 		}
 		if len(r.DiffEnd) > 0 {
 			return "exclusive-probe-state", fmt.Sprintf("%s: state differs after the self-undoing script and a read: %v", r.name(), r.DiffEnd)
@@ -963,12 +982,13 @@ func record(t *testing.T, c *ev.Collector, sub string, results []probeResult, re
 			c.Label("non-mutator-ran-beside-shared-holder")
 		case r.Mode == "shared" && !mut && !r.BInside:
 			c.Label("non-mutator-waited")
-		case r.Mode == "exclusive" && !r.BInside:
+		case strings.HasPrefix(r.Mode, "exclusive") && !r.BInside:
 			c.Label("reader-waited-for-exclusive-holder")
+			c.Label("holder:" + r.Mode)
 			if r.Probe.Det {
-				c.NonTrivial(sub + "|" + r.name() + "|" + lock)
+				c.NonTrivial(sub + "|" + r.name() + "|" + lock + "|" + r.Mode)
 			}
-		case r.Mode == "exclusive" && r.BInside:
+		case strings.HasPrefix(r.Mode, "exclusive") && r.BInside:
 			c.Label("answered-beside-exclusive-holder")
 		}
 		if r.Mode == "shared" && r.AOFGrew && !mut {
@@ -978,7 +998,7 @@ func record(t *testing.T, c *ev.Collector, sub string, results []probeResult, re
 			c.Inconclusive("%s %s: the probe arguments were expected to change the state but did not (reply %s)", r.name(), lock, r.Reply)
 			c.Label("expected-mutation-missing")
 		}
-		if c.WantSample() && (mut || r.Mode == "exclusive") {
+		if c.WantSample() && (mut || strings.HasPrefix(r.Mode, "exclusive")) {
 			sr := r
 			if len(sr.Reply) > 160 {
 				sr.Reply = sr.Reply[:160] + "..."
@@ -1087,7 +1107,7 @@ func TestC07_Exclusive(t *testing.T) {
 	}
 	c := ev.New("C07", "exclusive", "exploration")
 	t.Cleanup(c.Flush)
-	c.Rule("forced schedule: connection A runs EVAL of a script that inserts an object, changes a field, creates a key and sets a deadline, spins for d seconds, then undoes all four (exclusive lock for >= d, initial and final state identical); 60 ms later connection B sends a command whose reply is a function of the dataset (every read label of the command table, scripts included). Violation: B's reply differs from the reply of the same command on the initial state (it observed the half-applied script). Non-trivial: B was sent while A certainly held the lock and was answered after it; distinct by (label, shape, lock implementation).")
+	c.Rule("forced schedule: connection A runs a script (started as EVAL, TIMEOUT n EVAL, EVALSHA or TIMEOUT n EVALSHA, rotated over the shapes and lock variants) that inserts an object, changes a field, creates a key and sets a deadline, spins for d seconds, then undoes all four (exclusive lock for >= d, initial and final state identical); 60 ms later connection B sends a command whose reply is a function of the dataset (every read label of the command table, scripts included). Violation: B's reply differs from the reply of the same command on the initial state (it observed the half-applied script). Non-trivial: B was sent while A certainly held the lock and was answered after it; distinct by (label, shape, lock implementation).")
 	labels, err := commandLabels()
 	if err != nil {
 		t.Fatalf("cannot enumerate command labels: %v", err)
@@ -1096,24 +1116,33 @@ func TestC07_Exclusive(t *testing.T) {
 	ev.Rapid("exclusive", ev.Pick(1, 2))
 	rapid.Check(t, func(rt *rapid.T) {
 		a := argDraw{rt}
-		var jobs []job
+		var dets []probe
 		for _, l := range labels {
 			for _, p := range probesFor(l, a, 1, 1) {
 				if p.Det {
-					jobs = append(jobs, job{p, "exclusive"})
+					dets = append(dets, p)
 				}
 			}
 		}
 		for _, p := range extraProbes(a) {
 			if p.Det {
-				jobs = append(jobs, job{p, "exclusive"})
+				dets = append(dets, p)
 			}
+		}
+		// the holder script is started in four ways, rotated over the
+		// shapes and shifted by two between the lock variants, so that every
+		// shape meets a plain and a TIMEOUT-wrapped holder
+		holders := []string{"exclusive", "exclusive:timeout-eval", "exclusive:evalsha", "exclusive:timeout-evalsha"}
+		var jobs, jobsSpin []job
+		for i, p := range dets {
+			jobs = append(jobs, job{p, holders[i%4]})
+			jobsSpin = append(jobsSpin, job{p, holders[(i+1)%4]})
 		}
 		var wg sync.WaitGroup
 		var r1, r2 []probeResult
 		wg.Add(2)
 		go func() { defer wg.Done(); r1 = runJobs(getPool(false, 3), jobs) }()
-		go func() { defer wg.Done(); r2 = runJobs(getPool(true, 2), jobs) }()
+		go func() { defer wg.Done(); r2 = runJobs(getPool(true, 2), jobsSpin) }()
 		wg.Wait()
 		record(t, c, "exclusive", r1, reported)
 		record(t, c, "exclusive", r2, reported)
